@@ -125,118 +125,130 @@ def worker(version, args):
             h, b = o[3].split(" ", 1)
             return ("T", [cc.parse_canon(h[1:]), cc.parse_canon(b[1:])])
 
-        A = save_dump()
-        A2 = save_dump()
-        if cc.diff_canon(A, A2):
-            # saving twice without an edit must not change anything besides what C10 allows (the next-unit-id counter)
-            pass
-        size = scn.map_manager.map_size
-        # ---- the edit matrix: (label, slot, attr, setter, getter, new value fn, predicted paths) ----------------------------
-        edits = []
-        pm = scn.player_manager
+        def run_matrix(phase, nedits):
+            nonlocal_rng = rng
+            A = save_dump()
+            size = scn.map_manager.map_size
+            edits = []
+            pm = scn.player_manager
+            tm = scn.trigger_manager
 
-        def P(path):        # predicted name path helper
-            return path
+            def P(path):        # predicted name path helper
+                return path
 
-        for attr in layout.PLAYER_FIELDS:
-            if attr in ("active",):
-                continue
-            for p in range(9):
-                ents = layout.player_entries(attr, p, version)
-                prim = layout.PLAYER_FIELDS[attr][0]
-                if layout.pos(prim[3], p) is None or not ents or (prim[5] and vt < layout.vt(prim[5])):
+            for attr in layout.PLAYER_FIELDS:
+                if attr in ("active",):
                     continue
-                pred = [f"{sec}.{fld}[{i}]" + (f".{sf}" if sf else "") for sec, fld, i, sf, k in ents]
-                edits.append(("player", p, attr, pm.players[p], pred))
-        for dis, kind in layout.DISABLED.items():
-            for p in range(1, 9):
-                pred = [f"Options.disabled_{kind}_ids_player_{p}", f"Options.per_player_number_of_disabled_{kind}s[{p - 1}]"]
-                edits.append(("player", p, dis, pm.players[p], pred))
-        for p, lst in enumerate(scn.unit_manager.units):
-            for k, u in enumerate(lst):
-                for a, f in UNIT_FIELDS.items():
-                    edits.append(("unit", (p, k), a, u, [f"Units.players_units[{p}].units[{k}].{f}"]))
-        for i in rng.sample(range(size * size), min(6, size * size)):
-            for a, f in TILE_FIELDS.items():
-                edits.append(("tile", i, a, scn.map_manager.terrain[i], [f"Map.terrain_data[{i}].{f}"]))
-        from AoE2ScenarioParser.objects.support.trigger_select import TriggerSelect as TS
-        order = list(tm.trigger_display_order)
-        for ti, t in enumerate(tm.triggers):
-            for k, (a, f) in enumerate(TRIGGER_FIELDS.items()):
-                # the same trigger designated by index, by display index and by object reference (C07: they agree)
-                mode = k % 3
-                if mode == 0:
-                    obj = tm.get_trigger(TS.index(ti)); how = "index"
-                elif mode == 1:
-                    d = order.index(ti)
-                    obj = tm.get_trigger(TS.display(d)); how = f"display({d})"
+                for p in range(9):
+                    ents = layout.player_entries(attr, p, version)
+                    prim = layout.PLAYER_FIELDS[attr][0]
+                    if layout.pos(prim[3], p) is None or not ents or (prim[5] and vt < layout.vt(prim[5])):
+                        continue
+                    pred = [f"{sec}.{fld}[{i}]" + (f".{sf}" if sf else "") for sec, fld, i, sf, k in ents]
+                    edits.append(("player", p, attr, pm.players[p], pred))
+            for dis, kind in layout.DISABLED.items():
+                for p in range(1, 9):
+                    pred = [f"Options.disabled_{kind}_ids_player_{p}", f"Options.per_player_number_of_disabled_{kind}s[{p - 1}]"]
+                    edits.append(("player", p, dis, pm.players[p], pred))
+            for p, lst in enumerate(scn.unit_manager.units):
+                for k, u in enumerate(lst):
+                    for a, f in UNIT_FIELDS.items():
+                        edits.append(("unit", (p, k), a, u, [f"Units.players_units[{p}].units[{k}].{f}"]))
+            for i in rng.sample(range(size * size), min(6, size * size)):
+                for a, f in TILE_FIELDS.items():
+                    edits.append(("tile", i, a, scn.map_manager.terrain[i], [f"Map.terrain_data[{i}].{f}"]))
+            from AoE2ScenarioParser.objects.support.trigger_select import TriggerSelect as TS
+            order = list(tm.trigger_display_order)
+            for ti, t in enumerate(tm.triggers):
+                for k, (a, f) in enumerate(TRIGGER_FIELDS.items()):
+                    # the same trigger designated by index, by display index and by object reference (C07: they agree)
+                    mode = k % 3
+                    if mode == 0:
+                        obj = tm.get_trigger(TS.index(ti)); how = "index"
+                    elif mode == 1:
+                        d = order.index(ti)
+                        obj = tm.get_trigger(TS.display(d)); how = f"display({d})"
+                    else:
+                        obj = tm.get_trigger(TS.trigger(t)); how = "object"
+                    edits.append(("trigger", f"{ti} via {how}", a, obj, [f"Triggers.trigger_data[{ti}].{f}"]))
+                for ei, e in enumerate(t.effects):
+                    for a in rng.sample(EFFECT_INT_ATTRS, 8) + ["message", "sound_name", "selected_object_ids"]:
+                        f = a
+                        pred = [f"Triggers.trigger_data[{ti}].effect_data[{ei}].{f}"]
+                        if a == "selected_object_ids":
+                            pred.append(f"Triggers.trigger_data[{ti}].effect_data[{ei}].number_of_units_selected")
+                        edits.append(("effect", (ti, ei), a, e, pred))
+                for ci, c in enumerate(t.conditions):
+                    for a in rng.sample(CONDITION_INT_ATTRS, 6):
+                        edits.append(("condition", (ti, ci), a, c, [f"Triggers.trigger_data[{ti}].condition_data[{ci}].{a}"]))
+            for a, f in MESSAGE_FIELDS.items():
+                edits.append(("message", 0, a, scn.message_manager, [f"Messages.{f}"]))
+            for a, (sec, f) in OPTION_FIELDS.items():
+                edits.append(("option", 0, a, scn.option_manager, [f"{sec}.{f}"]))
+            if nedits and len(edits) > nedits:
+                keep = [e for e in edits if e[0] == "player"]
+                rest = [e for e in edits if e[0] != "player"]
+                rng.shuffle(rest); rng.shuffle(keep)
+                edits = keep[: nedits // 2] + rest[: nedits - min(len(keep), nedits // 2)]
+            edits = [(k_, s_, a_, o_, p_, z_) for (k_, s_, a_, o_, p_) in edits for z_ in (False, True)]
+            for kind, slot, attr, obj, pred, zero in edits:
+                with warnings.catch_warnings():
+                    warnings.simplefilter("ignore")
+                    st, old = common.outcome(getattr, obj, attr)
+                if st != "ok":
+                    continue                                # attribute not available in this version (C15)
+                new = _other_value(attr, old, rng)
+                if zero:
+                    # second pass: the falsy value of the attribute's type (0 / False / "" / []), when it is a change
+                    ov = getattr(old, "value", old)
+                    new = 0 if isinstance(ov, int) and not isinstance(ov, bool) and ov != 0 else (0.0 if isinstance(ov, float) and ov != 0.0 else None)
+                    if attr in ("civilization", "architecture_set", "victory_condition"):
+                        new = None
+                if new is None:
+                    continue
+                with warnings.catch_warnings():
+                    warnings.simplefilter("ignore")
+                    st, e = common.outcome(setattr, obj, attr, new)
+                if st != "ok":
+                    continue
+                st, B = common.outcome(save_dump)
+                with warnings.catch_warnings():
+                    warnings.simplefilter("ignore")
+                    setattr(obj, attr, old)
+                key = f"{phase}:{kind}:{slot}:{attr}:{'zero' if zero else 'other'}"
+                replay = {"version": version, "phase": phase, "object": kind, "slot": slot, "attribute": attr, "old": repr(old)[:60], "new": repr(new)[:60]}
+                if st != "ok":
+                    R.case(key=key, nontrivial=True, tags=(f"obj:{kind}", "save:raises", f"raises:{kind}.{attr}"))
+                    continue
+                changed = sorted(set(NM.name_path(p) for p in cc.diff_canon(A, B)))
+                # the next-unit-id counter advances with every save (reading it consumes an id, C10) - not part of any edit
+                changed = [c for c in changed if c != "DataHeader.next_unit_id_to_place"]
+                R.case(key=key, nontrivial=True, tags=(f"obj:{kind}",), sample=replay if len(R.samples) < 3 else None)
+                want = sorted(pred)
+                # documented duplicate of effects: `item_id` mirrors the first valid one of object_list_unit_id / technology / tribute_list
+                optional = [pred[0].rsplit(".", 1)[0] + ".item_id"] if kind == "effect" and attr in ("object_list_unit_id", "technology", "tribute_list") else []
+                changed_req = [c for c in changed if c not in optional]
+                if changed_req != want:
+                    missing = [w for w in want if w not in changed]
+                    extra = [c for c in changed if c not in want and c not in optional]
+                    R.violation({"kind": "misplaced-edit", "object": kind, "attribute": attr, "missing": bool(missing), "extra": bool(extra)},
+                                f"editing {kind} {slot} .{attr} changes {changed} in the saved file; the layout says {want}", {**replay, "changed": changed, "expected": want})
                 else:
-                    obj = tm.get_trigger(TS.trigger(t)); how = "object"
-                edits.append(("trigger", f"{ti} via {how}", a, obj, [f"Triggers.trigger_data[{ti}].{f}"]))
-            for ei, e in enumerate(t.effects):
-                for a in rng.sample(EFFECT_INT_ATTRS, 8) + ["message", "sound_name", "selected_object_ids"]:
-                    f = a
-                    pred = [f"Triggers.trigger_data[{ti}].effect_data[{ei}].{f}"]
-                    if a == "selected_object_ids":
-                        pred.append(f"Triggers.trigger_data[{ti}].effect_data[{ei}].number_of_units_selected")
-                    edits.append(("effect", (ti, ei), a, e, pred))
-            for ci, c in enumerate(t.conditions):
-                for a in rng.sample(CONDITION_INT_ATTRS, 6):
-                    edits.append(("condition", (ti, ci), a, c, [f"Triggers.trigger_data[{ti}].condition_data[{ci}].{a}"]))
-        for a, f in MESSAGE_FIELDS.items():
-            edits.append(("message", 0, a, scn.message_manager, [f"Messages.{f}"]))
-        for a, (sec, f) in OPTION_FIELDS.items():
-            edits.append(("option", 0, a, scn.option_manager, [f"{sec}.{f}"]))
-        if args["nedits"] and len(edits) > args["nedits"]:
-            keep = [e for e in edits if e[0] == "player"]
-            rest = [e for e in edits if e[0] != "player"]
-            rng.shuffle(rest); rng.shuffle(keep)
-            edits = keep[: args["nedits"] // 2] + rest[: args["nedits"] - min(len(keep), args["nedits"] // 2)]
-        edits = [(k_, s_, a_, o_, p_, z_) for (k_, s_, a_, o_, p_) in edits for z_ in (False, True)]
-        for kind, slot, attr, obj, pred, zero in edits:
-            with warnings.catch_warnings():
-                warnings.simplefilter("ignore")
-                st, old = common.outcome(getattr, obj, attr)
-            if st != "ok":
-                continue                                # attribute not available in this version (C15)
-            new = _other_value(attr, old, rng)
-            if zero:
-                # second pass: the falsy value of the attribute's type (0 / False / "" / []), when it is a change
-                ov = getattr(old, "value", old)
-                new = 0 if isinstance(ov, int) and not isinstance(ov, bool) and ov != 0 else (0.0 if isinstance(ov, float) and ov != 0.0 else None)
-                if attr in ("civilization", "architecture_set", "victory_condition"):
-                    new = None
-            if new is None:
-                continue
-            with warnings.catch_warnings():
-                warnings.simplefilter("ignore")
-                st, e = common.outcome(setattr, obj, attr, new)
-            if st != "ok":
-                continue
-            st, B = common.outcome(save_dump)
-            with warnings.catch_warnings():
-                warnings.simplefilter("ignore")
-                setattr(obj, attr, old)
-            key = f"{kind}:{slot}:{attr}:{'zero' if zero else 'other'}"
-            replay = {"version": version, "object": kind, "slot": slot, "attribute": attr, "old": repr(old)[:60], "new": repr(new)[:60]}
-            if st != "ok":
-                R.case(key=key, nontrivial=True, tags=(f"obj:{kind}", "save:raises", f"raises:{kind}.{attr}"))
-                continue
-            changed = sorted(set(NM.name_path(p) for p in cc.diff_canon(A, B)))
-            # the next-unit-id counter advances with every save (reading it consumes an id, C10) - not part of any edit
-            changed = [c for c in changed if c != "DataHeader.next_unit_id_to_place"]
-            R.case(key=key, nontrivial=True, tags=(f"obj:{kind}",), sample=replay if len(R.samples) < 3 else None)
-            want = sorted(pred)
-            # documented duplicate of effects: `item_id` mirrors the first valid one of object_list_unit_id / technology / tribute_list
-            optional = [pred[0].rsplit(".", 1)[0] + ".item_id"] if kind == "effect" and attr in ("object_list_unit_id", "technology", "tribute_list") else []
-            changed_req = [c for c in changed if c not in optional]
-            if changed_req != want:
-                missing = [w for w in want if w not in changed]
-                extra = [c for c in changed if c not in want and c not in optional]
-                R.violation({"kind": "misplaced-edit", "object": kind, "attribute": attr, "missing": bool(missing), "extra": bool(extra)},
-                            f"editing {kind} {slot} .{attr} changes {changed} in the saved file; the layout says {want}", {**replay, "changed": changed, "expected": want})
-            else:
-                R.traces += 1
+                    R.traces += 1
+            return A
+
+        A = run_matrix("fresh", args["nedits"])
+        # phase 2: the same matrix (objects only) after a save followed by SAME-LENGTH rearrangements - triggers reordered, a unit
+        # replaced - so that list positions and the positions recorded at the last commit differ
+        with cc.quiet():
+            tmq = scn.trigger_manager
+            tmq.reorder_triggers([2, 0, 3, 1])
+            um = scn.unit_manager
+            u0 = um.units[1][0]
+            um.remove_unit(unit=u0)
+            um.add_unit(player=1, unit_const=83, x=3.5, y=0.5)
+        PLAYER_SKIP = True
+        A = run_matrix("after-reorder", (args["nedits"] // 2) if args["nedits"] else 0)
         # after undoing every edit the file must be A again
         Z = save_dump()
         zd = [NM.name_path(p) for p in cc.diff_canon(A, Z)]
